@@ -28,6 +28,7 @@ Next ==
   \/ \E n \in {1, 2} : ChildOut(1, n)
   \/ ChildErr(1, 1)
   \/ \E f \in {1, 2} : ChildClose(1, f)
+  \/ Interrupt
 
 Spec == Init /\ [][Next]_vars
 Export == ExportRet
